@@ -17,6 +17,7 @@ CMP_DEFAULT = {'equal_default', 'allclose_default', 'abs', 'abs_'}
 def run(prog: Program, rep: Report, tier: str) -> None:
     rep.rule('C13-D1', 'key-region coverage: in the function that decides convergence (MultiTensor.shouldStop, through its class-level alias) and in MultiTensor.allclose, for each tolerance branch, a block present in both operands is compared with the other operand\'s block, a block present in only one operand is compared with its default (zero), and a failed comparison returns False')
     rep.rule('C13-D2', 'the default compared against is the semiring zero: the one-sided comparison is the *_default method of the block (compares physical with the block\'s own default) -- decided together with C07-D2 which fixes that default to from_int(0)')
+    rep.rule('C13-D3', 'reference operand: torch.allclose(a, b) measures the relative tolerance against b; in PatternedTensor.allclose every isclose/allclose call compares a value of self (receiver) with a value of other (argument), never the other way round, and forwards rtol/atol/equal_nan')
     rep.not_decided += ['the pattern-overlap decision procedure of PatternedTensor.equal/allclose (combinatorial over runtime axis trees)', 'symmetry/reflexivity of equal']
     mt = prog.cls(MU, 'MultiTensor')
     targets: List[FuncInfo] = []
@@ -41,6 +42,7 @@ def run(prog: Program, rep: Report, tier: str) -> None:
     for f in targets:
         n += region_coverage(rep, f)
     rep.floor('C13-D1 loops', n, 4)
+    reference_operand(rep, prog)
 
 
 def region_coverage(rep: Report, f: FuncInfo) -> int:
@@ -92,6 +94,25 @@ def region_coverage(rep: Report, f: FuncInfo) -> int:
         if fails:
             ok = all(isinstance(cfg.nodes[n].expr, ast.Constant) and cfg.nodes[n].expr.value is False for n in fails)
             rep.ob('C13-D1 key-region', f.fq(), f"[{branch}] loop over {owner}: a failed comparison returns False", f.loc(lp), ok, '')
+    # every key-region loop lies on every path to the final `return True` (no early exit may skip a region)
+    dom = cfg.dominators()
+    final_true = [n for n, nd in cfg.nodes.items() if nd.kind == 'return' and isinstance(nd.expr, ast.Constant) and nd.expr.value is True]
+    for lp in loops:
+        hdr = cfg.node_of(lp)
+        br = branch_of(cfg, hdr)
+        # paths from the function entry that are compatible with the loop's branch: walk from the branch test towards return True avoiding the header
+        starts = [cfg.entry]
+        tests = [d for d in dom.get(hdr, set()) if cfg.nodes[d].kind == 'test' and isinstance(cfg.nodes[d].stmt, ast.If)]
+        if tests:
+            d0 = min(tests, key=lambda x: cfg.nodes[x].lineno)
+            lab = 'true' if br.endswith('then') else 'false'
+            starts = [b for b, l in cfg.succ[d0] if l == lab]
+        skipping = []
+        for s0 in starts:
+            r = cfg.reachable([s0], stop=lambda n: n == hdr)
+            skipping += [n for n in r if cfg.nodes[n].kind == 'return' and isinstance(cfg.nodes[n].expr, ast.Constant) and cfg.nodes[n].expr.value is True]
+        rep.ob('C13-D1 key-region', f.fq(), f"[{br}] loop over {norm(lp.iter)} cannot be skipped on the way to `return True`", f.loc(lp), not skipping,
+               'every accepting path runs the loop' if not skipping else 'an accepting `return True` is reachable without entering the loop: ' + ', '.join(cfg.describe(n) for n in skipping[:2]))
     for branch, regs in by_branch.items():
         need = {'both', 'S-O', 'O-S'}
         missing = need - set(regs)
@@ -136,3 +157,52 @@ def _exit_only_via_return_false(cfg, r) -> bool:
     """Reaching exit through `return False` (a failed earlier comparison) is not an escape."""
     preds = [p for p, l in cfg.pred[cfg.exit] if p in r]
     return all(cfg.nodes[p].kind == 'return' and isinstance(cfg.nodes[p].expr, ast.Constant) and cfg.nodes[p].expr.value is False for p in preds)
+
+
+def reference_operand(rep: Report, prog: Program) -> None:
+    rule = 'C13-D3 reference-operand'
+    f = prog.func('fggs.indices', 'PatternedTensor.allclose')
+    selfn, other = f.positional_params()[:2]
+    defs = {}
+    for a in own_nodes(f.node):
+        if isinstance(a, ast.Assign):
+            for t in a.targets:
+                for x in ([t] if isinstance(t, ast.Name) else list(t.elts) if isinstance(t, ast.Tuple) else []):
+                    if isinstance(x, ast.Name) and x.id not in (selfn,):
+                        defs.setdefault(x.id, []).append(a.value)
+
+    def side(e: ast.AST, depth: int = 0):
+        """Which operand's data an expression carries: the tensor an expression is derived from is the receiver of its method
+        chain / the first argument of the function that produced it."""
+        if depth > 6: return set()
+        if isinstance(e, ast.Name):
+            if e.id == selfn: return {'self'}
+            if e.id == other and e.id not in defs: return {'other'}
+            out = set()
+            if e.id == other: out.add('other')
+            for v in defs.get(e.id, []):
+                if isinstance(v, ast.Call) and callee_last(v) == 'freshen':      # other = other.freshen()
+                    out |= side(v.func.value, depth + 1) if not (isinstance(v.func.value, ast.Name) and v.func.value.id == e.id) else {'other'} if e.id == other else set()
+                else:
+                    out |= side(v, depth + 1)
+            return out
+        if isinstance(e, (ast.Attribute, ast.Subscript)):
+            return side(e.value, depth + 1)
+        if isinstance(e, ast.Call):
+            if isinstance(e.func, ast.Attribute) and not (isinstance(e.func.value, ast.Name) and e.func.value.id in ('torch',)):
+                if e.func.attr in ('new_tensor',) and e.args:
+                    return side(e.args[0], depth + 1)
+                return side(e.func.value, depth + 1)
+            return side(e.args[0], depth + 1) if e.args else set()
+        return set()
+    n = 0
+    for c in [x for x in own_nodes(f.node) if isinstance(x, ast.Call) and isinstance(x.func, ast.Attribute) and x.func.attr in ('isclose', 'allclose') and x.args]:
+        rs, as_ = side(c.func.value), side(c.args[0])
+        n += 1
+        ok = rs == {'self'} and as_ == {'other'}
+        kw = {k.arg for k in c.keywords}
+        fw = {'rtol', 'atol'} <= kw
+        rep.ob(rule, f.fq(), norm(c)[:100], f.loc(c), ok and fw,
+               'receiver is a value of self, the reference argument a value of other; tolerances forwarded' if ok and fw else
+               (f"receiver carries {sorted(rs)}, argument carries {sorted(as_)}: torch.allclose(self, other) scales rtol by |other|, so the receiver must be a value of self and the argument a value of other" if not ok else 'rtol/atol are not forwarded'))
+    rep.floor('C13-D3', n, 4)
